@@ -87,6 +87,7 @@ class Config(object):
         self.long_strands = prof["prop"] in ("C08", "C09", "C10", "C06") and rng.random() < 0.05 and not self.marathon \
             and not self.ultra
         if self.long_strands:
+            self.n_designs = max(self.n_designs, 2)      # several graphs (of different order) served by one process
             if "MASSIVE" in self._prof_faults and "MASSIVE" not in [f for f, _ in self.fault_weights]:
                 self.fault_weights.append(("MASSIVE", 3))
             self.mixed_k = True
@@ -281,7 +282,7 @@ class Synth(Client):
         if cfg.ultra:
             n = rng.randint(5000, 9000)
         if cfg.long_strands and rng.random() < 0.5:
-            n = rng.choice([255, 256, 257, 400, 511, 512, 513, 600, 700])     # word / buffer boundaries, many-error reads
+            n = rng.choice([255, 256, 257, 511, 512, 513, 600, 600, 700, 700])   # word / buffer boundaries, many-error reads
             sim.stats.inc("probes", "pool:long-strand")
         strand = M.random_walk(rng, design.rows, start, n)
         if strand is None:
